@@ -106,7 +106,7 @@ theorem produce_inv {st : St K} (h : Inv st) (o : Nat) (d : Dense K) (mag : Nat)
 an unchanged-size store -/
 macro "objok" h:ident : tactic => `(tactic| first
   | exact objOK_empty _
-  | (intro hown; cases hown)
+  | (intro hown; exact absurd hown Bool.false_ne_true)
   | (intro hown; (try simp only [ownerStore_size, rset_size, writeView_size, Obj.layout]); first | done | rfl | exact $h _ _ (by assumption) hown))
 
 macro "inv_leaf" h:ident : tactic => `(tactic| first
